@@ -491,9 +491,14 @@ pub fn eval_c19(item: &(String, usize, bool)) -> Eval {
                         }
                     }
                     // extend / contains: sphere centred at a with radii 1, 2; points from the lattice
-                    for r in [1.0f64, 2.0, 0.5] {
+                    // (radius 0: a point sphere extended by another point is the sphere on the segment between them; the
+                    // point itself is left out for radius 0 - direction of a zero vector)
+                    for r in [1.0f64, 2.0, 0.5, 0.0] {
                         let sp0 = Sphere::new(em(a), r * s);
                         for q in ivecs(2) {
+                            if r == 0. && q == [0, 0, 0] {
+                                continue;
+                            }
                             let x = (dv(q) + dv(a) + off) * s;
                             let dist = dv(q).length();
                             let case = format!("extend/contains centre {:?} r {} point offset {:?} scale {:e}", a, r, q, s);
@@ -519,6 +524,20 @@ pub fn eval_c19(item: &(String, usize, bool)) -> Eval {
                                 }
                             }
                             e.transitions += 1;
+                            // chains: the sphere extended by x and then by a second point contains the original sphere
+                            // (its centre and, for r > 0, its far side) and both points
+                            if dist >= r * (1. + 1e-6) {
+                                for q2 in [[2, -1, 0], [-2, 0, 1], [0, 2, 2]] {
+                                    let y = (dv(q2) + dv(a) + off) * s;
+                                    let chain = ext.clone().extend(y);
+                                    let inside = |p: DVec3, slack: f64| p.distance(chain.center) <= chain.radius * (1. + 1e-9) + slack;
+                                    let tiny = 1e-11 * s * (1. + off.length() + 4.);
+                                    if !(chain.radius.is_finite() && inside(x, tiny) && inside(y, tiny) && chain.center.distance(sp0.center) + sp0.radius <= chain.radius * (1. + 1e-9) + tiny) {
+                                        e.issue("extend-chain-loses-a-point", &case, format!("after extend({}) and extend({}): centre {} radius {:e}", fmt_vec(x), fmt_vec(y), fmt_vec(chain.center), chain.radius), rp(case.clone()));
+                                    }
+                                    e.transitions += 1;
+                                }
+                            }
                         }
                     }
                 }
